@@ -75,8 +75,7 @@ def domain(name, P, C, x):
         nu, sc, lam = P['nu'].e, P['scale'].e, P['lam'].e
         w = nu + sc * x
         cs += [z3.Or(w >= q(1e-6 + 1e-10), w <= -q(1e-6)), zabs(w) <= 1000, sc >= q(0.001),
-               zabs(lam * L(zabs(w) + 1)) <= q(13.8), zabs((2 - lam) * L(zabs(w) + 1)) <= q(13.8),
-               z3.Or(lam == 0, zabs(lam) >= q(0.001)), z3.Or(lam == 2, zabs(lam - 2) >= q(0.001))]
+               zabs(lam * L(zabs(w) + 1)) <= q(13.8), zabs((2 - lam) * L(zabs(w) + 1)) <= q(13.8)]
     elif name == 'LogSinh':
         a, b, xmax = E(P['loga'].e), E(P['logb'].e), C['xmax'].e
         w = a + b * x / xmax
@@ -94,11 +93,12 @@ class RoundTrip(Case):
     prop = 'C01'
     functions = []
 
-    def __init__(self, clsname, ctor=None, n=1, via_get=False):
+    def __init__(self, clsname, ctor=None, n=1, via_get=False, fresh_backward=False):
         self.cls, self.ctor, self.n, self.via_get = clsname, dict(ctor or {}), n, via_get
-        self.name = 'roundtrip:%s%s%s' % (clsname, '(%s)' % ','.join('%s=%s' % kv for kv in sorted(self.ctor.items())) if self.ctor else '',
+        self.fresh_backward = fresh_backward
+        self.name = 'roundtrip%s:%s%s%s' % ('-fresh-backward' if fresh_backward else '', clsname, '(%s)' % ','.join('%s=%s' % kv for kv in sorted(self.ctor.items())) if self.ctor else '',
                                          ':get_transform' if via_get else '')
-        self.params = dict(cls=clsname, ctor=self.ctor, n=n, via_get=via_get)
+        self.params = dict(cls=clsname, ctor=self.ctor, n=n, via_get=via_get, fresh_backward=fresh_backward)
         self.functions = ['hydrodiy.stat.transform.%s.forward/backward/backward_censored' % clsname]
 
     def modules(self):
@@ -136,7 +136,16 @@ class RoundTrip(Case):
         else:
             x = core.symarray(I['x']) if sym else np.array(I['x'], dtype=float)
         y = tr.forward(x)
-        b = tr.backward(y)
+        if self.fresh_backward:
+            # backward on a second, freshly built object whose first call is backward (state must not depend on call order)
+            if self.via_get:
+                tr2 = transform.get_transform(self.cls, **kw)
+            else:
+                tr2 = make(self.cls, self.ctor)
+                set_params(tr2, I['P'], I['C'])
+            b = tr2.backward(y)
+        else:
+            b = tr.backward(y)
         yy = tr.forward(b)
         out = dict(y=list(np.asarray(y, dtype=object).flat), b=list(np.asarray(b, dtype=object).flat),
                    yy=list(np.asarray(yy, dtype=object).flat))
@@ -169,6 +178,8 @@ def cases(tier):
              'Sinh', 'Manly']
     for n in names:
         out.append(RoundTrip(n))
+    for n in ('BoxCox1lam', 'BoxCox1nu', 'BoxCox2sym', 'Log', 'Sinh'):
+        out.append(RoundTrip(n, fresh_backward=True))
     # non-default constructor options
     out += [RoundTrip('Log', dict(base=10.0)), RoundTrip('Log', dict(mininu=0.5)), RoundTrip('BoxCox2', dict(minilam=-1.0)),
             RoundTrip('BoxCox2', dict(mininu=0.25)), RoundTrip('BoxCox1nu', dict(minilam=-1.0)), RoundTrip('BoxCox2sym', dict(minilam=-1.0)),
